@@ -56,6 +56,21 @@ Theorem C09_sound_refuted_datelike :
 Proof. vm_compute. split; reflexivity. Qed.
 Print Assumptions C09_sound_refuted_datelike.
 
+(* "division or modulo by zero as zero": every division by zero, and integer and unsigned modulo by zero, are zero in
+   the evaluator (and hence, by C09_sound, after folding).  Float modulo is NOT covered: it is math.Mod, which is NaN
+   for a zero divisor - known finding C09-float-mod-zero, pinned by TestReduce (2.5 % 0 -> NaN); in the model it is
+   the opaque o_fmod, the same function on both sides, so C09_sound is unaffected. *)
+Theorem C09_by_zero : forall orc ifd a b,
+  eval_ii orc ifd MOD a 0 = VInt 0 /\ eval_uu MOD a 0 = VUint 0 /\ eval_uu DIV a 0 = VUint 0 /\
+  eval_ii orc ifd DIV a 0 = (if ifd then VFloat fzero else VInt 0) /\
+  (f_is_zero orc b = true -> eval_ff orc DIV a b = VFloat fzero) /\
+  eval_ff orc MOD a b = VFloat (o_fmod orc a b).
+Proof.
+  intros orc ifd a b. split; [reflexivity|]. split; [reflexivity|]. split; [reflexivity|]. split; [destruct ifd; reflexivity|].
+  split; [|reflexivity]. intros H. unfold eval_ff. rewrite H. reflexivity.
+Qed.
+Print Assumptions C09_by_zero.
+
 (* folding is idempotent: Reduce of a reduced expression returns it unchanged - every expression, every valuer *)
 Theorem C09_idempotent : forall orc v e, Reduce orc v (Reduce orc v e) = Reduce orc v e.
 Proof. exact InfluxQL.Proofs.SetTimeRangeProofs.Reduce_idem. Qed.
